@@ -114,7 +114,9 @@ func (r ResolveResult) Targets(network string) iter.Seq[Target] {
 			}
 			alpn := h.ALPN
 			if !h.NoDefaultALPN {
-				alpn = append(alpn, "http/1.1")
+				// Never append in place: h.ALPN may have spare capacity
+				// that is shared with the resolver cache or other records.
+				alpn = append(slices.Clip(alpn), "http/1.1")
 			}
 			if h.Target != "" {
 				for _, a := range r.Additional[h.Target] {
